@@ -31,6 +31,8 @@ class _NumberOfVertices(PositiveScalar):
         super()._validate(value)
         if value < 3:
             raise ValueError(f'{self.name!r} must be >= 3')
+        if value != int(value):
+            raise ValueError(f'{self.name!r} must be an integer')
 
 
 class PolygonPixelRegion(PixelRegion):
